@@ -239,6 +239,8 @@ pub struct Ctx<G: AffineRepr> {
     pub alloc_calls: Cell<usize>,
     /// what that call returned: Ok(handles) is recorded as Ok, Err(e) as the error
     pub missing_result: RefCell<Option<Result<(), R1CSError>>>,
+    /// number of linear combinations built so far (selects the spelling)
+    pub lc_count: Cell<usize>,
 }
 
 impl<G: AffineRepr> Ctx<G> {
@@ -255,6 +257,7 @@ impl<G: AffineRepr> Ctx<G> {
             missing_at: Cell::new(None),
             alloc_calls: Cell::new(0),
             missing_result: RefCell::new(None),
+            lc_count: Cell::new(0),
         })
     }
     fn real(&self, v: &Var) -> Variable<Fr<G>> {
@@ -265,8 +268,61 @@ impl<G: AffineRepr> Ctx<G> {
         }
         direct_var(v)
     }
+    /// The same expression is spelled through a different part of the operator set each time
+    /// (and differently by the two roles): collection from a term list, sums and differences
+    /// starting from the empty combination or from a variable, negation, scaling, constants
+    /// converted from field elements. All spellings denote Σ cᵢ·varᵢ.
     fn real_lc(&self, terms: &[(Var, Fr<G>)]) -> LinearCombination<Fr<G>> {
-        terms.iter().map(|(v, c)| (self.real(v), *c)).collect()
+        let k = self.lc_count.get();
+        self.lc_count.set(k + 1);
+        let style = (k + if self.is_prover { 0 } else { 3 }) % 8;
+        let term = |v: &Var, c: Fr<G>| -> LinearCombination<Fr<G>> {
+            if matches!(v, Var::One) && k % 2 == 0 {
+                LinearCombination::from(c)
+            } else {
+                self.real(v) * c
+            }
+        };
+        match style {
+            1 => terms.iter().fold(LinearCombination::default(), |acc, (v, c)| acc + term(v, *c)),
+            2 => terms.iter().fold(LinearCombination::default(), |acc, (v, c)| acc - term(v, -*c)),
+            3 => {
+                let mut it = terms.iter();
+                match it.next() {
+                    None => LinearCombination::default(),
+                    Some((v0, c0)) => it.fold(term(v0, *c0), |acc, (v, c)| acc + term(v, *c)),
+                }
+            }
+            4 => -terms.iter().map(|(v, c)| (self.real(v), -*c)).collect::<LinearCombination<Fr<G>>>(),
+            5 => {
+                let two = Fr::<G>::from(2u64);
+                let half = ark_ff::Field::inverse(&two).unwrap();
+                terms.iter().map(|(v, c)| (self.real(v), *c * half)).collect::<LinearCombination<Fr<G>>>() * two
+            }
+            6 => {
+                // variable-led: v0 + (c0 - 1)·v0 + rest
+                let mut it = terms.iter();
+                match it.next() {
+                    None => LinearCombination::default(),
+                    Some((v0, c0)) => {
+                        let start = self.real(v0) + self.real(v0) * (*c0 - Fr::<G>::one());
+                        it.fold(start, |acc, (v, c)| acc + term(v, *c))
+                    }
+                }
+            }
+            7 => {
+                // variable-led with subtraction and a negated variable: v0 − ((1 − c0)·v0) − Σ (−cᵢ)·vᵢ
+                let mut it = terms.iter();
+                match it.next() {
+                    None => LinearCombination::default(),
+                    Some((v0, c0)) => {
+                        let start = self.real(v0) - (-self.real(v0)) * (*c0 - Fr::<G>::one());
+                        it.fold(start, |acc, (v, c)| acc - term(v, -*c))
+                    }
+                }
+            }
+            _ => terms.iter().map(|(v, c)| (self.real(v), *c)).collect(),
+        }
     }
     fn record(&self, what: &'static str, ret: &[Variable<Fr<G>>], exp: &[Var], len_real: usize) {
         let m = self.model.borrow();
